@@ -9,6 +9,8 @@ CONSTANTS
   Ops = {1, 2}
   MaxInFlight = 1
   AuctionImpl = "intended"
+  Resolution = "locked"
   MaxRounds = 0
+  Family = "free"
 INVARIANTS Emit KeepsLastGood LockBalanced LockAccounting
 CHECK_DEADLOCK FALSE
